@@ -165,6 +165,8 @@ func doGen(p Prop, tier string, seed uint64, out, corpus string, shardSize int) 
 	for i, c := range cases {
 		raw, err := json.Marshal(c.Input)
 		must(err)
+		// progress marker: if the real code never returns on this case the orchestrator knows the culprit
+		os.WriteFile(filepath.Join(out, "progress.json"), []byte(fmt.Sprintf("{\"id\": %d, \"input\": %s}", i, raw)), 0o644)
 		obs, err := p.Observe(raw)
 		if err != nil {
 			// a generator / harness bug, never an alarm
